@@ -27,8 +27,14 @@ type VBytes []byte
 type VCount int32
 type VRatio float64
 
+// the named foci S, B, I, F are each the SECOND field of their type: a BiMapX
+// that resolves its focus by type instead of by the given name hits S0..F0
 type VNamed struct {
 	Guard0 int64
+	S0     string
+	B0     []byte
+	I0     int32
+	F0     float64
 	S      string
 	B      []byte
 	I      int32
